@@ -23,20 +23,21 @@ N_VALUE_FUNCTIONS = 24
 
 PROVED_VS_SEARCHED = {
     "dim normalisation": "proved inside every theorem below (normAxis / torchDim), rank-0 special cases included",
-    "view algebra": "proved (function level, all ranks/sizes): flatten, unflatten, view, reshape, permute, transpose, t, squeeze, squeeze.dim, "
+    "view algebra": "proved (function level, all ranks/sizes unless noted): flatten, unflatten, view, reshape, permute (_partial: dims != [], i.e. rank >= 1), transpose, t, squeeze, squeeze.dim, "
                     "unsqueeze, expand/broadcast_to, atleast_nd, pixel_shuffle / pixel_unshuffle (_partial: non-empty); element maps of "
                     "reshape-like views: searched (onnxruntime vs torch values)",
     "slicing": "proved: slice.Tensor, narrow, select, index_select, gather, embedding, chunk, split, unbind, slice_scatter, select_scatter, "
-               "scatter.src/scatter_add (_partial: src of the index's shape), flip index map, roll index map + shape (any shift, empty tensors), "
+               "scatter.src/scatter_add (_partial: operands of rank >= 1), select / unbind (rank >= 1 = PyTorch's domain), flip index map, roll index map (axis size > 0, any shift) + shape (empty tensors too), "
                "tril/triu predicate, diagonal; values for rank > 1: searched",
     "replication": "proved: repeat, repeat_interleave.self_int, tile, stack, cat; values: searched",
+    "add/sub broadcast shape": "definitional (model and spec are the same function; rfl) - content is in the per-case tie",
     "integer arithmetic": "proved exact on Int: floor_divide (signed/unsigned), remainder, fmod, div.Tensor_mode on ints, add/sub alpha, bool add, "
                           "clamp order, left shift (two's complement), right shift for w = 8 exhaustively",
     "scalar promotion bookkeeping": "searched only (dtype of result compared with torch on every case)",
-    "reductions' bookkeeping": "proved: output shape for dim lists / keepdim / empty list / None (sum, mean, amax/amin _partial, all/any(.dim,.dims), "
-                               "argmax/argmin, max.dim/min.dim, logsumexp, logcumsumexp, prod, cumsum, topk, softmax dim); reduced values: searched",
+    "reductions' bookkeeping": "proved: output shape for dim lists / keepdim / empty list / None (sum, mean, amax/amin _partial, all/any.dim, all/any.dims _partial: non-empty list, "
+                               "argmax/argmin, max.dim/min.dim, logsumexp, logcumsumexp, prod, cumsum, topk _partial: rank >= 1, softmax dim); reduced values: searched",
     "linear algebra shapes": "proved: matmul (five documented cases vs the numpy rule), mm, bmm, mv, dot, linear (Gemm / 1-D weight / MatMul+Add); values: searched",
-    "attribute adjustment": "proved: pads layouts, avg/max pool, convolution (+transposed), conv1d/2d/3d (_partial: conv3d without bias), Pad, unfold, "
+    "attribute adjustment": "proved: pads layouts, avg/max pool and convolution (+transposed) (_partial: full-length list arguments; int / 1-element forms: padding expansion only), conv1d/2d/3d, Pad, unfold, "
                             "upsample size path, im2col, col2im; upsample scales path: searched",
     "normalisation / sort / addmm (round 5)": "proved: layer_norm / native_layer_norm output shapes incl. mean/rstd (_partial: non-empty normalised "
                                               "block), sort (rank-0 branch and TopK), addmm (model = spec, refusals included), baddbmm, glu (_partial: "
